@@ -60,8 +60,9 @@ PROPS = {
         'trusted': ['slice.indices encoding (validated against CPython on a cube each run)'],
     },
     'C08': {
-        'level': 'exploration', 'extra': ['pyframe.effects'],
-        'explanation': 'validate_scalar (accept / reject decision per value) and slice_length are discharged by z3 (counted under C04/C07 evidence too); Vector.__setitem__ itself (index phase, multi-value decision, commit) is bounded only in this round: exhaustive key forms x value forms with list assignment as oracle and a snapshot comparison on every failure.',
+        'level': 'proof', 'extra': ['pyframe.effects'],
+        'explanation': "Vector.__setitem__ on the real text, for int keys (scalar or list value) and index-list keys with a list value, vectors of every length: bad index / length mismatch raise exactly when list assignment would; on success length and name are unchanged, the column kind is the ladder fold over EVERY written value (loop invariant on the decision loop; validate_scalar, _can_promote and _promote - with its state update: existing elements converted, None kept - are discharged separately), None makes the column nullable, SerifTypeError arises only from the ladder, and the CONTENTS are what sequential list assignment gives: the addressed cell holds the value (a repeated index: the last value wins), every other cell is the old element, converted only by the promotion (exact last-write-wins rule for the commit loop, with the in-range obligation for every store). Atomicity on failure: every raise precedes the first store (pyframe check-first / frame obligations). Slice and boolean-mask keys, scalar values repeated over a slice, and table cell / row / column / region assignment are bounded only (exhaustive key forms x value forms with list assignment as oracle and a snapshot comparison on every failure).",
+        'trusted': ['slice and mask key forms of Vector.__setitem__, Table.__setitem__: bounded stand-in only', 'alias tracker calls: trusted stubs (protocol around them: pyframe)', 'A-real: numeric conversions int()/float()/complex() of ladder values are total'],
     },
     'C09': {
         'level': 'proof',
